@@ -284,7 +284,7 @@ def _lean_str(s):
     return '"' + s.replace("\\", "\\\\").replace('"', '\\"') + '"'
 
 
-@register(props=["C03"])
+@register(props=["C03", "C09"])
 def gen_sec_writes():
     fns, reach = analyse_writes()
     rows = [(cls, fn, kind, tgt) for (cls, fn) in reach for (kind, tgt) in fns[(cls, fn)][0]]
@@ -301,3 +301,189 @@ def gen_sec_writes():
     body += f"def reachedFunctions : Nat := {len(reach)}\n"
     body += "end Generated.SecWrites\n"
     write_if_changed("SecWrites.lean", body)
+
+
+# ------------------------------------------------------------------------------------------------ receive-path structure
+#
+# Structural facts of the receive path that the model takes for granted (round 4):
+#  * the router's gate (`process_basic_header` / `process_security_header`) decides on the packet, the MIB and the presence
+#    of a verify service ONLY: the model's `gate cfg en hv S p` has no router state.  `gateStateReads` lists every
+#    attribute chain rooted in `self` that is read inside a condition of the two functions (locals are not state: a
+#    renamed local does not change the list); `rxWrites` every store of the two functions that outlives the call and
+#    whether the same target is re-assigned in a `finally` clause of that function (a receive-context attribute that is
+#    set on the way in must be reset on EVERY way out, exceptions included).
+#  * `VerifyService` consults the certificate library through `libraryUses` only (model: `find st.ats`, `verifySeq1`;
+#    in particular never `own_certificates`), and every `return SNVERIFYConfirm(report=ReportVerify.SUCCESS …)` is
+#    lexically inside an `if` whose test depends on the result of `verify_with_pk` (`successSites`).
+
+RX_FUNCS = ("process_basic_header", "process_security_header")
+
+
+def _self_chains(node, selfname):
+    """dotted attribute chains rooted in `self` read anywhere inside `node` (maximal chains only)"""
+    out = set()
+    inner = set()
+    for n in ast.walk(node):
+        if isinstance(n, ast.Attribute):
+            c = _chain(n)
+            if c and c[0] == selfname and c[1]:
+                out.add(".".join(p for p in c[1] if p != "[]"))
+                if isinstance(n.value, ast.Attribute):
+                    ci = _chain(n.value)
+                    if ci and ci[0] == selfname and ci[1]:
+                        inner.add(".".join(p for p in ci[1] if p != "[]"))
+    return out - inner
+
+
+def analyse_rx():
+    tree = ast.parse(src("geonet/router.py"))
+    reads, writes = set(), []
+    for cls in tree.body:
+        if not (isinstance(cls, ast.ClassDef) and cls.name == "Router"):
+            continue
+        for fn in cls.body:
+            if not (isinstance(fn, ast.FunctionDef) and fn.name in RX_FUNCS):
+                continue
+            selfname = fn.args.args[0].arg
+            for n in ast.walk(fn):
+                tests = []
+                if isinstance(n, (ast.If, ast.IfExp, ast.While)):
+                    tests.append(n.test)
+                elif isinstance(n, ast.Assert):
+                    tests.append(n.test)
+                elif isinstance(n, ast.comprehension):
+                    tests += n.ifs
+                elif isinstance(n, ast.match_case) and n.guard is not None:
+                    tests.append(n.guard)
+                for t in tests:
+                    reads |= _self_chains(t, selfname)
+            w = _FnWrites(fn, True)
+            finals = set()          # targets (dotted, rooted in self) assigned inside a `finally` body of this function
+            for n in ast.walk(fn):
+                if isinstance(n, ast.Try):
+                    for st in n.finalbody:
+                        for m in ast.walk(st):
+                            tgs = m.targets if isinstance(m, (ast.Assign, ast.Delete)) else \
+                                [m.target] if isinstance(m, (ast.AugAssign, ast.AnnAssign)) else []
+                            for t in tgs:
+                                c = _chain(t)
+                                if c and c[0] == selfname and c[1]:
+                                    finals.add(_dotted(c[1]))
+            for kind, tgt in sorted(w.out):
+                writes.append((fn.name, kind, tgt, tgt in finals))
+    if not writes and not reads:
+        raise ValueError("Router.process_basic_header / process_security_header not found")
+    return sorted(reads), writes
+
+
+def analyse_verify_shape():
+    tree = ast.parse(src("security/verify_service.py"))
+    uses, sites, psid_shape = set(), [], []
+    for cls in tree.body:
+        if not (isinstance(cls, ast.ClassDef) and cls.name == "VerifyService"):
+            continue
+        for fn in cls.body:
+            if not isinstance(fn, ast.FunctionDef) or fn.name == "__init__":
+                continue
+            selfname = fn.args.args[0].arg
+            lib_alias = set()
+            for n in ast.walk(fn):
+                if isinstance(n, ast.Assign) and isinstance(n.value, ast.Attribute):
+                    c = _chain(n.value)
+                    if c and c[0] == selfname and c[1] == ("certificate_library",):
+                        lib_alias |= {t.id for t in n.targets if isinstance(t, ast.Name)}
+            for n in ast.walk(fn):
+                if isinstance(n, ast.Attribute):
+                    c = _chain(n)
+                    if c and c[0] == selfname and len(c[1]) >= 2 and c[1][0] == "certificate_library":
+                        uses.add(c[1][1])
+                    elif c and c[0] in lib_alias and c[1]:
+                        uses.add(c[1][0])
+                if isinstance(n, ast.Call) and isinstance(n.func, ast.Name) and n.func.id in ("getattr", "hasattr") \
+                        and len(n.args) >= 2:
+                    c = _chain(n.args[0])
+                    if c and ((c[0] == selfname and c[1] == ("certificate_library",)) or (c[0] in lib_alias and not c[1])):
+                        uses.add(n.args[1].value if isinstance(n.args[1], ast.Constant) else "<computed>")
+            # names bound to the result of verify_with_pk (any receiver)
+            sig_names = set()
+            for n in ast.walk(fn):
+                if isinstance(n, (ast.Assign, ast.AnnAssign, ast.NamedExpr)):
+                    v = n.value
+                    if v is not None and any(isinstance(k, ast.Call) and isinstance(k.func, ast.Attribute)
+                                             and k.func.attr == "verify_with_pk" for k in ast.walk(v)):
+                        tg = n.targets if isinstance(n, ast.Assign) else [n.target]
+                        sig_names |= {t.id for t in tg if isinstance(t, ast.Name)}
+
+            def depends_on_signature(test):
+                for k in ast.walk(test):
+                    if isinstance(k, ast.Name) and k.id in sig_names:
+                        return True
+                    if isinstance(k, ast.Call) and isinstance(k.func, ast.Attribute) and k.func.attr == "verify_with_pk":
+                        return True
+                return False
+
+            def is_success_return(st):
+                if not isinstance(st, ast.Return) or st.value is None:
+                    return False
+                for k in ast.walk(st.value):
+                    if isinstance(k, ast.keyword) and k.arg == "report" and isinstance(k.value, ast.Attribute) \
+                            and k.value.attr == "SUCCESS":
+                        return True
+                return False
+
+            def walk(stmts, guarded):
+                for st in stmts:
+                    if is_success_return(st):
+                        sites.append(guarded)
+                    if isinstance(st, ast.If):
+                        walk(st.body, guarded or depends_on_signature(st.test))
+                        walk(st.orelse, guarded)
+                    elif isinstance(st, (ast.For, ast.While, ast.With)):
+                        walk(st.body, guarded)
+                        walk(getattr(st, "orelse", []), guarded)
+                    elif isinstance(st, ast.Try):
+                        for blk in (st.body, st.orelse, st.finalbody):
+                            walk(blk, guarded)
+                        for h in st.handlers:
+                            walk(h.body, guarded)
+                    elif isinstance(st, ast.Match):
+                        for cs in st.cases:
+                            walk(cs.body, guarded)
+            walk(fn.body, False)
+    # shape of the ITS-AID guard, wherever in verify_service.py it lives (method or helper function):
+    # `<psid name> not in [<entry>["psid"] for <entry> in <…permissions…>]` -- the ITS-AID compared with the PROJECTION
+    # of the PsidSsp entries (an entry may carry an ssp component next to the psid)
+    for n in ast.walk(tree):
+        if isinstance(n, ast.Compare) and len(n.ops) == 1 and isinstance(n.ops[0], (ast.NotIn, ast.In)):
+            cmp_ = n.comparators[0]
+            names = {k.id for k in ast.walk(cmp_) if isinstance(k, ast.Name)}
+            if not any("perm" in x.lower() for x in names):
+                continue
+            proj = isinstance(cmp_, (ast.ListComp, ast.SetComp, ast.GeneratorExp)) and isinstance(cmp_.elt, ast.Subscript) \
+                and isinstance(cmp_.elt.slice, ast.Constant) and cmp_.elt.slice.value == "psid"
+            left_scalar = isinstance(n.left, ast.Name)
+            # (polarity -- `in` / `not in` -- is a matter of how the branch is written: not part of the fact)
+            psid_shape.append("psid-vs-projection" if proj and left_scalar else "other")
+    return sorted(uses), sites, sorted(psid_shape)
+
+
+@register(props=["C03", "C05"])
+def gen_sec_rx():
+    reads, writes = analyse_rx()
+    uses, sites, psid_shape = analyse_verify_shape()
+    body = "namespace Generated.SecRx\n"
+    body += ("/-- attribute chains rooted in `self` read inside a condition of Router.process_basic_header /\n"
+             "    process_security_header (the router state the gate decides on) -/\n")
+    body += "def gateStateReads : List String := [" + ", ".join(_lean_str(x) for x in reads) + "]\n"
+    body += ("/-- stores of the two functions that outlive the call: (function, kind, target, re-assigned in a `finally`) -/\n")
+    body += "def rxWrites : List (String × String × String × Bool) := [" + ", ".join(
+        "(" + ", ".join([_lean_str(f), _lean_str(k), _lean_str(t), "true" if r else "false"]) + ")" for f, k, t, r in writes) + "]\n"
+    body += "/-- attributes / methods of the certificate library VerifyService touches (outside __init__) -/\n"
+    body += "def libraryUses : List String := [" + ", ".join(_lean_str(x) for x in uses) + "]\n"
+    body += ("/-- one entry per `return SNVERIFYConfirm(report=ReportVerify.SUCCESS …)` of VerifyService: is it inside an `if`\n"
+             "    whose test depends on the result of `verify_with_pk`? -/\n")
+    body += "def successSites : List Bool := [" + ", ".join("true" if g else "false" for g in sites) + "]\n"
+    body += "/-- shape of the membership tests against the ticket's appPermissions in VerifyService -/\n"
+    body += "def psidGuardShape : List String := [" + ", ".join(_lean_str(x) for x in psid_shape) + "]\n"
+    body += "end Generated.SecRx\n"
+    write_if_changed("SecRx.lean", body)
